@@ -434,5 +434,9 @@ func init() {
 			_, fs := c12Replay(decode[c12Case](raw), 0)
 			return fs
 		},
+		GoTest: func(raw json.RawMessage) string {
+			cs := decode[c12Case](raw)
+			return worldGoTest(cs.T, cs.C, cs.Ops)
+		},
 	})
 }
